@@ -46,6 +46,7 @@ LET = [
     # settings of a measurement that are not parameters; measurements of different arity
     ("MX(sel=.5)", lambda: ops.MeasureHomodyne(0.0, select=0.5), (0,)),
     ("MX(sel=-1)", lambda: ops.MeasureHomodyne(0.0, select=-1.0), (0,)),
+    ("MX(sel=0)", lambda: ops.MeasureHomodyne(0.0, select=0.0), (0,)),  # a setting whose value is falsy
     ("MF", lambda: ops.MeasureFock(), (0,)),
     ("MF", lambda: ops.MeasureFock(), (0, 1)),
     # an array-valued parameter
